@@ -68,6 +68,18 @@ def answer? (H : Hashes) (_stone6 : Bool) (toks : List String) : Option String :
     | .panic s => pure ("panic " ++ s)
   | ["diluted", n, s, z, a] => do
     pure ("ok " ++ hx (Diluted.getDilutedProduct (← felt? n) (← felt? s) (← felt? z) (← felt? a)))
+  | "memratio" :: rest =>
+    if rest.length ≠ 13 then none else do
+    let pi ← parsePI? (rest.take 10)
+    match rest.drop 10 with
+    | [z, a, sz] => pure (out hx (pi.publicMemoryProductRatio (← felt? z) (← felt? a) (← felt? sz)))
+    | _ => none
+  | "pihash" :: rest =>
+    if rest.length ≠ 11 then none else do
+    let pi ← parsePI? (rest.take 10)
+    match rest.drop 10 with
+    | [nf] => pure ("ok " ++ hx (pi.getHash H _stone6 (← felt? nf)))
+    | _ => none
   | _ => none
 
 def answer (H : Hashes) (stone6 : Bool) (line : String) : String :=
